@@ -4,6 +4,7 @@ from fractions import Fraction
 import numpy as np
 from astropy import units as u
 from astropy.wcs import WCS
+from . import wcs_common as wc
 from .. import common, impl, gen, tie, oracles
 from ..common import cz, clist, copt, cbool
 from .c01 import TRUSTED
@@ -152,6 +153,14 @@ def explore(ctx):
                 ey = (float(m1[0]) + 1 - w.wcs.crpix[1]) * w.wcs.cdelt[1] + w.wcs.crval[1]
                 if not (close(float(stw.x_cen), ex, 1e-8) and close(float(stw.y_cen), ey, 1e-8)):
                     fails.append('PP centroid through the WCS (%r, %r), expected (%r, %r)' % (float(stw.x_cen), float(stw.y_cen), ex, ey))
+                # ... and through rotated, projected and distorted ones
+                for w2, expect2, desc in (wc.rotated_linear(rng), wc.celestial(rng, False), wc.celestial(rng, True)):
+                    stw = PPStatistic(stat_of(pts, 2), dict(md, wcs=w2))
+                    e2 = expect2([float(m1[1]), float(m1[0])])
+                    g2 = [float(u.Quantity(stw.x_cen).value), float(u.Quantity(stw.y_cen).value)]
+                    ctx.count('wcs=' + desc.split(' rotated')[0])
+                    if not (close(g2[0], e2[0], 1e-9) and close(g2[1], e2[1], 1e-9)):
+                        fails.append('PP centroid through a WCS with %s: (%r, %r), the transformed mean pixel position is (%r, %r)' % (desc, g2[0], g2[1], float(e2[0]), float(e2[1])))
             else:
                 base = None
                 for vaxis in (0, 1, 2):
@@ -209,6 +218,14 @@ def explore(ctx):
                             fails.append('%s with vaxis=%d on a ScalarStatistic already used with another vaxis is %r, on a fresh one %r'
                                          % (k, vx, oa[k], ob[k]))
                             break
+                # a cube WCS with rotated sky axes (and possibly a velocity gradient), velocity axis first in the array
+                w3, expect3, desc = wc.rotated_linear(rng, 3)
+                st3 = PPVStatistic(stat_of(pts, 3), dict(md, wcs=w3, vaxis=0))
+                e3 = expect3([float(m1[2]), float(m1[1]), float(m1[0])])
+                g3 = [float(u.Quantity(q).value) for q in (st3.x_cen, st3.y_cen, st3.v_cen)]
+                ctx.count('wcs=cube ' + desc.split(' rotated')[0])
+                if not all(close(a_, b_, 1e-9) for a_, b_ in zip(g3, e3)):
+                    fails.append('PPV centroid through a cube WCS with %s: %r, the transformed mean pixel position is %r' % (desc, g3, [float(x) for x in e3]))
                 if vs is not None:
                     st2 = PPVStatistic(stat_of(pts, 3), dict(md, velocity_scale=4 * vs))
                     if not close(float((1 * st2.v_rms).value), 4 * base['v_rms'], 1e-9):
